@@ -49,6 +49,30 @@ def ty_contains(t, names):
     return None
 
 
+def intersect_operands(ctx, R):
+    """shared by C07 (valid instances stay reachable) and C06 (only valid instances are admitted)"""
+    # ---- R3: object intersection (allOf / sibling applicators): each operand's property is intersected with what the
+    # OTHER operand says about that key.  In Schema::intersect every `property_schema(obj, key)` must take `obj` from
+    # one operand and `key` from the iteration over the other operand's `properties` (operands = parameters 1 and 2).
+    isect = ctx.body(JS + "Schema::intersect")
+    n_ps = 0
+    for bi, t in isect.calls():
+        if not t["f"].get("def", "").endswith("::property_schema") or len(t["args"]) < 3:
+            continue
+        n_ps += 1
+        r_obj, r_key = L.role(isect, t["args"][1], depth=40), L.role(isect, t["args"][2], depth=40)
+        side = lambda r: {x for x in ("param:1", "param:2") if x in r}
+        so, sk = side(r_obj), side(r_key)
+        ok = len(so) == 1 and len(sk) == 1 and so != sk and ".properties" in r_key
+        ctx.check(ok, R, "intersect:property-looked-up-in-other-operand#%d" % n_ps,
+                  "key from %s is looked up in %s" % (sorted(sk), sorted(so)),
+                  "Schema::intersect looks a property key of operand %s up in operand %s (must be the other one): the key is matched "
+                  "against its own (already emptied) object, so listed properties fall to additionalProperties and valid "
+                  "instances are rejected" % (sorted(sk), sorted(so)), site=isect.where(bi))
+    ctx.floor(R, "property_schema look-ups in Schema::intersect", n_ps, 2)
+
+
+
 def run(ctx):
     P = ctx.prog
     obj = P.adts.get(JS + "ObjectSchema")
@@ -154,6 +178,8 @@ def run(ctx):
     bad = [t["f"]["def"] for _, t in go.calls() if t["f"].get("def", "").rsplit("::", 1)[-1] in ("sort", "sort_by", "sort_by_key", "sort_unstable", "reverse", "swap", "dedup")
            and L.root_local(go, go.expr(t["args"][0])) in handed]
     ctx.check(not bad, "C07-R1", "gen_json_object:items-not-reordered", "items is never sorted or reversed", "gen_json_object reorders items with %s" % bad, site=go.where())
+
+    intersect_operands(ctx, "C07-R3")
 
     # ---- R2: a valid token must not disappear from the mask: speculative rows are never re-used across trie
     # branches (shared with C01-R2 / C11-R3; anchored file parser/src/earley/parser.rs)
